@@ -342,6 +342,19 @@ def _flat(v, sp):
 
 
 def execute(run):
+    """Wrapper: a time-out anywhere (also while the reference or the metric
+    is being built) makes the run inconclusive, never a harness error."""
+    from ..runner import RunTimeout
+    try:
+        return _execute(run)
+    except RunTimeout:
+        return {'violations': [], 'digest': 'inconclusive-timeout',
+                'n_ops': len(run['ops']), 'faults': {}, 'probes': {},
+                'state_sig': 'timeout', 'nontrivial': False,
+                'inconclusive': 1, 'logical': {'ops': len(run['ops'])}}
+
+
+def _execute(run):
     import sympy as sp
     import aurel
     from ..digest import Trace, digest
